@@ -1,7 +1,12 @@
 //! hipverif: correspondence harness (Tie B) -- drives the real hipstr implementation and prints/writes what it did.
 //! Usage: hipverif <driver> --out DIR [--tier quick|thorough] [--seed N] [driver args]
+mod alloc;
 mod util;
 mod range;
+mod bytes;
+
+#[global_allocator]
+static GLOBAL: alloc::Tracking = alloc::Tracking;
 
 use std::path::PathBuf;
 
@@ -28,6 +33,7 @@ fn main() {
     let _ = &rest;
     match driver.as_str() {
         "range" => range::run(&out, &tier, seed),
+        "bytes" => bytes::run(&out, &tier, seed, &rest),
         _ => { eprintln!("unknown driver {}", driver); std::process::exit(2); }
     }
 }
